@@ -70,6 +70,10 @@ def run(ctx):
     d_fresh = evaltables.rule_application(ctx, "C03-fresh-frame", {"frame", "bind"})
     evaltables.rule_trampoline(ctx, "C03-fresh-frame", {"frame"})       # self tail calls: each turn has its own frame
     evaltables.rule_assignment(ctx, "C03-set-in-place")
+    # closures share a binding only if each captures the very frame it was created in (also a frame that binds nothing yet)
+    ctx.rule("C03-closure-frame", "a closure captures the frame it is created in, by reference: a frame without parent, a frame that binds "
+                                  "nothing yet under one that does, a frame with bindings (lambda table)")
+    evaltables.rule_lambda(ctx, "C03-closure-frame")
     def _old_fresh():
         asp = fb.find(INTERP + "apply_scheme_procedure")
         pa = Prov(asp)
